@@ -1578,14 +1578,14 @@ func (v *Verifier) checkAts(st *State, c *ssa.Call) {
 	}
 	name, _ := v.callOrdinal(c)
 	for _, ab := range v.fc.Ats {
-		if !strings.Contains(name, ab.Callee) {
+		if !atMatches(name, ab.Callee) {
 			continue
 		}
 		// ordinal among calls matching this at-block's callee substring
 		n := 0
 		match := false
 		for _, oc := range v.allCalls {
-			if strings.Contains(v.callNames[oc], ab.Callee) {
+			if atMatches(v.callNames[oc], ab.Callee) {
 				n++
 				if oc == c {
 					match = n == ab.Ordinal
@@ -1753,13 +1753,13 @@ func (v *Verifier) assumeAfterCall(st *State, c *ssa.Call, res Value) {
 	}
 	name, _ := v.callOrdinal(c)
 	for _, ab := range v.fc.Ats {
-		if len(ab.Assumes) == 0 || !strings.Contains(name, ab.Callee) {
+		if len(ab.Assumes) == 0 || !atMatches(name, ab.Callee) {
 			continue
 		}
 		n := 0
 		match := false
 		for _, oc := range v.allCalls {
-			if strings.Contains(v.callNames[oc], ab.Callee) {
+			if atMatches(v.callNames[oc], ab.Callee) {
 				n++
 				if oc == c {
 					match = n == ab.Ordinal
@@ -1777,4 +1777,18 @@ func (v *Verifier) assumeAfterCall(st *State, c *ssa.Call, res Value) {
 			st.assumeTagged(v.evalBoolIn(st, env, cl), cl.Label)
 		}
 	}
+}
+
+// atMatches: does the call named name (method name of an interface call, function key of a static
+// call, description of a function value) match the callee pattern of an "at" block? A pattern
+// without a dot names the function or method itself (so "Err" does not match zap.Error or
+// fmt.Errorf); a pattern with a dot is matched as a substring (receiver-qualified: "c.cipher").
+func atMatches(name, callee string) bool {
+	if strings.ContainsAny(callee, "./") {
+		return strings.Contains(name, callee)
+	}
+	if i := strings.Index(name, "["); i >= 0 && strings.HasSuffix(name, "]") && !strings.Contains(name[i:], ").") {
+		name = name[:i] // instantiated generic function: pkg.F[T]
+	}
+	return name == callee || strings.HasSuffix(name, "."+callee)
 }
